@@ -89,6 +89,8 @@ class Trap:
     def __init__(self):
         self._Trapdoor = 'not private'
         self.__real = 'private'
+        self._Plainish = 'begins with the name of another class'
+        self._dict_like = {'_dict_inner': 1}
 
 
 def make_local_class():
@@ -148,7 +150,7 @@ def nested_list(rng, depth):
 
 
 def container(rng):
-    r = rng.randint(0, 15)
+    r = rng.randint(0, 16)
     if r == 0:
         return '[]'
     if r == 1:
@@ -179,6 +181,8 @@ def container(rng):
         return 'tuple(range(%d))' % rng.choice([10, 11, 12])
     if r == 14:
         return "{'k%d' % i: [i] for i in range(3)}"
+    if r == 15:
+        return "{'_dict_size': 1, '_dictionary': [2], '_dict': 3, '_size': 4, 'ionary': 5, '_list_x': 6}"
     return '{}'
 
 
@@ -218,7 +222,10 @@ class Body:
         self.k += 1
         r = self.rng.random()
         # now and then a protected / private looking local (inside a class body the compiler mangles `__x`)
-        lead = '_' if r < 0.06 else '__' if r < 0.1 else ''
+        # … and names that begin with `_` + the type name of the container they live in (frame locals are a `dict`):
+        # a collector that strips `_<type name>` from every child name would show locals that do not exist
+        lead = ('_' if r < 0.06 else '__' if r < 0.1 else '_dict_' if r < 0.16 else '_dictionary' if r < 0.19
+                else '_dict' if r < 0.21 else '')
         return '%s%s%d' % (lead, self.prefix, self.k)
 
     def emit(self, text, cand=True):
